@@ -154,7 +154,7 @@ fn c09_failed_run_exit_status_and_no_final_output() {
             let mut d = DataDir::new();
             for (i, b) in chain.iter().enumerate() {
                 if i == h { let mut m = raw.clone(); m[pos] ^= 1u8 << rng.below(8); let off = d.put_block(0, 0xd9b4bef9, &m, &[]);
-                    d.recs.push(IndexRec { hash: b.hash(), version: 1, height: i as u64, status: ST_ACTIVE, ntx: 1, file: 0, offset: off }); }
+                    d.recs.push(IndexRec { hash: b.hash(), version: 1, height: i as u64, status: ST_ACTIVE, ntx: 1, file: 0, offset: off, header: None }); }
                 else { d.add(0, i as u64, b, ST_ACTIVE); }
             }
             d.write();
